@@ -166,7 +166,7 @@ func c12HostPolicy(c *Ctx) {
 		if !ok {
 			return false
 		}
-		b, f, ok := fieldLoad(strip(ia.X))
+		b, f, ok := fieldLoad(strip(rv(ia.X)))
 		return ok && f.Name() == "hosts" && b == ssa.Value(hP)
 	}
 	isSel := func(v ssa.Value) bool {
@@ -234,38 +234,36 @@ func c12QueryToken(c *Ctx) {
 	fn := c.Fn("cmd/rdpgw/security", "QueryInfo")
 	key := shortFn(fn)
 	qKey := c.Global("cmd/rdpgw/security", "QuerySigningKey")
-	parses := callsTo(fn, joseJWT+".ParseSigned")
-	vals := callsTo(fn, "("+joseJWT+".Claims).Validate")
+	parses := c.findSteps(fn, joseJWT+".ParseSigned")
+	vals := c.findSteps(fn, "("+joseJWT+".Claims).Validate")
 	if len(parses) != 1 || len(vals) != 1 {
 		c.Bad(rule, key+" calls", fn.Pos(), "expected one ParseSigned and one Validate, found %d and %d", len(parses), len(vals))
 		return
 	}
-	parse, val := parses[0].(*ssa.Call), vals[0].(*ssa.Call)
+	parseS, valS := parses[0], vals[0]
+	parse, val := parseS.call, valS.call
 	okA, how := algListIs(arg(parse, 1), "HS256")
-	c.Check(okA && arg(parse, 0) == ssa.Value(fn.Params[1]), rule, key+" parse", parse.Pos(), "parses the token parameter with allow-list "+how, "the query token is not parsed with exactly {HS256}: "+how)
-	std, _ := func() (*ssa.Alloc, bool) {
-		if a, ok := loadAddr(recvOf(val)); ok {
-			al, ok := a.(*ssa.Alloc)
-			return al, ok
-		}
-		return nil, false
-	}()
+	c.Check(okA && c.normIn(parseS, arg(parse, 0)) == ssa.Value(fn.Params[1]), rule, key+" parse", parse.Pos(), "parses the token parameter with allow-list "+how, "the query token is not parsed with exactly {HS256}: "+how)
+	var std *ssa.Alloc
+	if a, ok := loadAddr(c.upIn(valS, recvOf(val))); ok {
+		std, _ = a.(*ssa.Alloc)
+	}
 	if std == nil {
 		c.Undecided(rule, key+" standard", fn.Pos(), "validated claims are not a local")
 		return
 	}
-	iss, now, _, ok := expectedLiteral(arg(val, 0))
+	iss, now, _, ok := c.expectedLiteralR(valS, arg(val, 0))
 	c.Check(ok && iss == ssa.Value(fn.Params[2]) && now, rule, key+" validate.shape", val.Pos(), "Validate(Expected{Issuer: the issuer parameter, Time: now})", "Validate does not check the configured issuer against the current time")
-	var claimsCalls []*ssa.Call
-	for _, ci := range callsTo(fn, "(*"+joseJWT+".JSONWebToken).Claims") {
-		call := ci.(*ssa.Call)
-		dst := variadicAllocs(arg(call, 1))
-		good := strip(recvOf(call)) == resultOf(parse, 0) && isLoadOfGlobal(arg(call, 0), qKey) && len(dst) == 1 && dst[0] == std
+	var claimsCalls []stepRef
+	for _, st := range c.findSteps(fn, "(*"+joseJWT+".JSONWebToken).Claims") {
+		call := st.call
+		dst := c.variadicAllocsUp(st, arg(call, 1))
+		good := c.normIn(st, recvOf(call)) == resultOf(parse, 0) && isLoadOfGlobal(c.upIn(st, arg(call, 0)), qKey) && len(dst) == 1 && dst[0] == std
 		if !good {
 			c.Bad(rule, key+" claims.shape", call.Pos(), "a Claims call does not verify the parsed token under QuerySigningKey into the validated claims")
 			continue
 		}
-		claimsCalls = append(claimsCalls, call)
+		claimsCalls = append(claimsCalls, st)
 	}
 	if len(claimsCalls) == 0 {
 		c.Bad(rule, key+" claims", fn.Pos(), "the query token's signature is never verified")
@@ -274,12 +272,12 @@ func c12QueryToken(c *Ctx) {
 	exits := acceptingReturns(fn, 1, func(v ssa.Value) bool { return !isNil(v) })
 	for i, e := range exits {
 		ek := fmt.Sprintf("%s exit#%d", key, i)
-		c.requireChecked(rule, ek+" parse", fn, e, parse, 1, "HS256 parse")
-		c.requireChecked(rule, ek+" validate", fn, e, val, 0, "issuer/expiry validation")
-		// at least one verifying Claims call gates the exit and dominates the Validate read
+		c.requireStep(rule, ek+" parse", fn, e, parseS, 1, "HS256 parse")
+		c.requireStep(rule, ek+" validate", fn, e, valS, 0, "issuer/expiry validation")
+		// at least one verifying Claims call gates the exit and precedes the Validate read
 		gated := false
 		for _, cl := range claimsCalls {
-			if ok, _ := mustPass(fn, e, GErrNil(cl)); ok && dominatesInstr(cl, val) {
+			if ok, _ := c.stepGates(fn, e, cl, 0); ok && c.before(fn, cl, valS.siteIn()) {
 				gated = true
 			}
 		}
